@@ -219,7 +219,10 @@ where
             return Ok(());
         }
         if let Some(head) = self.head {
-            if slice.len() > Label::MAX_LEN - (self.len() - head) {
+            // The octet at `head` is the length octet and doesn’t count
+            // towards the label length.
+            let label_len = self.len() - head - 1;
+            if slice.len() > Label::MAX_LEN - label_len {
                 return Err(PushError::LongLabel);
             }
         } else {
